@@ -1,5 +1,6 @@
 SPECIFICATION SimSpec
 CONSTANTS
+  ViaDefault = FALSE
   Threads = {1, 2, 3}
   Regs = {1, 2}
   MaxSpans = 12
